@@ -45,7 +45,8 @@ def random_request(rng, allow_fwd_in_conn=True):
     connpool = e2e + (FWD + ["X-Forwarded-For"] if allow_fwd_in_conn else [])
     conn = rng.sample(connpool, rng.randint(0, min(3, len(connpool)))) if rng.random() < 0.5 else []
     upstream = rng.sample(FWD + ["X-Forwarded-For"], rng.randint(0, 3)) if rng.random() < 0.5 else []
-    return {"target": random_target(rng), "method": rng.choice(["GET", "GET", "DELETE", "OPTIONS"]),
+    upempty = [h for h in rng.sample(FWD, rng.randint(0, 2)) if h not in upstream and h not in conn] if rng.random() < 0.4 else []
+    return {"target": random_target(rng), "method": rng.choice(["GET", "GET", "DELETE", "OPTIONS"]), "upempty": upempty,
             "e2e": e2e, "hop": hop, "conn": conn, "connlines": rng.random() < 0.5, "upstream": upstream, "tls": rng.random() < 0.3,
             "hostport": rng.random() < 0.4, "passhost": rng.random() < 0.5, "peer": rng.choice(["v4", "v6", "v6zone"]),
             "mode": "ok", "resp": random_response(rng)}
